@@ -13,7 +13,12 @@ mod mod_test;
 /// The input is a text value and not a file, so it is read as UTF-8.
 fn read(text: &[u8]) -> Result<HashMap<String, String>, PropertiesError> {
     let mut map = HashMap::new();
-    PropertiesIter::new_with_encoding(text, UTF_8).read_into(|key, value| {
+    // The decoder removes one leading byte order mark. Hand it one of ours, so that a text which itself
+    // starts with U+FEFF (a key may) keeps that character.
+    let mut input = Vec::with_capacity(text.len() + 3);
+    input.extend_from_slice(b"\xEF\xBB\xBF");
+    input.extend_from_slice(text);
+    PropertiesIter::new_with_encoding(&input[..], UTF_8).read_into(|key, value| {
         map.insert(key, value);
     })?;
     Ok(map)
